@@ -67,8 +67,16 @@ type c16Layer struct {
 
 func c16Layers() []c16Layer {
 	return []c16Layer{
-		{"mem", true, func(dir string, cs []child) (hackpadfs.FS, func()) { fs := newMem(); populate(fs, dir, cs); return fs, func() {} }},
-		{"kvplain", true, func(dir string, cs []child) (hackpadfs.FS, func()) { fs, _ := newKVPlain(); populate(fs, dir, cs); return fs, func() {} }},
+		{"mem", true, func(dir string, cs []child) (hackpadfs.FS, func()) {
+			fs := newMem()
+			populate(fs, dir, cs)
+			return fs, func() {}
+		}},
+		{"kvplain", true, func(dir string, cs []child) (hackpadfs.FS, func()) {
+			fs, _ := newKVPlain()
+			populate(fs, dir, cs)
+			return fs, func() {}
+		}},
 		{"mount", false, func(dir string, cs []child) (hackpadfs.FS, func()) {
 			root := newMem()
 			populate(root, dir, cs)
